@@ -4,7 +4,7 @@
    implementation at quiescence, see DESIGN sec. 3 and 4.1). *)
 From Coq Require Import List NArith ZArith Bool Arith.
 Import ListNotations.
-From GM Require Import Base.Topic Base.Msg Model.SubTrie Model.RetTrie Model.Queue Model.Limiter.
+From GM Require Import Base.Topic Base.Msg Model.SubTrie Model.RetTrie Model.Queue Model.Limiter Model.TopicMatch.
 Open Scope N_scope.
 
 (* ---------- packets at the level the scenarios speak ---------- *)
@@ -343,6 +343,15 @@ Definition send_will (cid : str) (m : msg) (s : st) : st * list out :=
                       let '(s', o, _) := deliver cid m' (retain_update m' s) in (s', o)
   end.
 
+(* sessionTerminatedLocked signals a will that still waits for its delay: it is published as soon as
+   the broker lock is free again *)
+Definition release_will (cid : str) (s : st) : st * list out :=
+  match aget cid (b_wills s) with
+  | Some (w, _) =>
+      send_will cid w (set_tables (b_sessions s) (b_online s) (b_offline s) (adel cid (b_wills s)) (b_queues s) (b_unacks s) s)
+  | None => (s, [])
+  end.
+
 (* unregisterClient for the connection on socket c *)
 Definition unregister (c : N) (k : conn) (s : st) : st * list out :=
   let cid := k_cid k in
@@ -351,7 +360,7 @@ Definition unregister (c : N) (k : conn) (s : st) : st * list out :=
   | None => (remove_session cid s, [])
   | Some se =>
       let expiry := if negb (k_force_remove k) && (k_v k =? 5) && k_got_disconnect k
-                    then opt_or (k_disc_sei k) (se_expiry se) else se_expiry se in
+                    then N.min (opt_or (k_disc_sei k) (se_expiry se)) (c_session_expiry (b_cfg s)) else se_expiry se in
       let store := negb (k_force_remove k) && negb (expiry =? 0) in
       let '(s1, o1) :=
         match se_will se with
@@ -630,6 +639,10 @@ Definition as_dup (m : msg) : msg :=
 (* the Message Expiry Interval forwarded to a v5 subscriber: what is left of it, at least 1 *)
 Definition remaining (orig waited : N) : N := if waited <? orig then orig - waited else 1.
 
+(* publishWithRemainingExpiry *)
+Definition aged (v5 : bool) (now : N) (e : elem) (m : msg) : msg :=
+  if v5 && negb (m_expiry m =? 0) then with_expiry_val (remaining (m_expiry m) ((now - e_at e) / 1000)) m else m.
+
 (* one turn of the poll loop; returns None when the loop is parked *)
 Definition poll_once (c : N) (s : st) : option (st * list out) :=
   match nget c (b_conns s) with
@@ -653,8 +666,8 @@ Definition poll_once (c : N) (s : st) : option (st * list out) :=
                                    match e_body e with
                                    | QPub m =>
                                        let k1 := set_lim_held (lim_mark (m_pid m) (k_lim k0)) (k_held k0) (k_drained k0) k0 in
-                                       let '(k2, o2) := write_publish c k1 (as_dup m) in (k2, o0 ++ o2)
-                                   | QRel p => (k0, o0 ++ [OSend c (KPubrel p 0 [])])
+                                       let '(k2, o2) := write_publish c k1 (aged (k_v k0 =? 5) (b_now s) e (as_dup m)) in (k2, o0 ++ o2)
+                                   | QRel p => (set_lim_held (lim_mark p (k_lim k0)) (k_held k0) (k_drained k0) k0, o0 ++ [OSend c (KPubrel p 0 [])])
                                    end) rs (k, []) in
                     (* the stored message keeps Dup and loses its subscription identifiers *)
                     let q'' := q_set (map (fun e => match e_body e with
@@ -678,16 +691,12 @@ Definition poll_once (c : N) (s : st) : option (st * list out) :=
                         let used := length (filter (fun e => match e_body e with QPub m => negb (m_qos m =? 0) | QRel _ => false end) rs) in
                         let l' := lim_batch_release (skipn used ids) (k_lim k) in
                         let v5 := k_v k =? 5 in
-                        (* pollNewMessages rewrites MessageExpiry; the element in the queue shares the message *)
-                        let fix_ (e : elem) : elem :=
-                          match e_body e with
-                          | QPub m => if v5 && negb (m_expiry m =? 0)
-                                      then with_body (QPub (with_expiry_val (remaining (m_expiry m) ((b_now s - e_at e) / 1000)) m)) e else e
-                          | QRel _ => e
-                          end in
-                        let rs' := map fix_ rs in
-                        let q'' := q_set (map (fun e => if existsb (fun r => e_tag r =? e_tag e) rs then fix_ e else e) (q_l q'))
-                                         (q_cur q') (q_drained q') q' in
+                        (* the PUBLISH carries the remaining lifetime; the stored message keeps the original interval *)
+                        let rs' := map (fun e => match e_body e with
+                                                 | QPub m => with_body (QPub (aged v5 (b_now s) e m)) e
+                                                 | QRel _ => e
+                                                 end) rs in
+                        let q'' := q' in
                         let '(k', o) :=
                           fold_left (fun acc e =>
                                        let '(k0, o0) := acc in
@@ -823,7 +832,15 @@ Definition handle_publish (c : N) (k : conn) (dup : bool) (qos : N) (retain : bo
           if qos =? 2 then
             let u := opt_or (aget (k_cid k) (b_unacks s)) [] in
             let '(u', ex) := unack_set pid u in
-            (set_unacks (aset (k_cid k) u' (b_unacks s)) s, ex)
+            let s := set_unacks (aset (k_cid k) u' (b_unacks s)) s in
+            (* a retransmission gives back the quota unit the read loop charged *)
+            let s := if ex && v5 then
+                       match nget c (b_conns s) with
+                       | Some k1 => if k_quota k1 <? k_recv_max k1 then upd_conn c (set_quota (k_quota k1 + 1) k1) s else s
+                       | None => s
+                       end
+                     else s in
+            (s, ex)
           else (s, false) in
         let action := if h_msg_on (b_hooks s) then opt_or (aget (m_topic m) (h_msg (b_hooks s))) MAccept else MAccept in
         let '(s, o, matched, err) :=
@@ -950,12 +967,16 @@ Definition handle_packet (c : N) (k : conn) (p : pkt) (s : st) : hres :=
   let v5 := k_v k =? 5 in
   match p with
   | KPublish dup qos retain topic payload pid props =>
+      (* the decoder rejects a topic name with wildcard characters (malformed packet: the read loop ends) *)
+      if has_wild topic then HErrRead s (Some 129) else
       (* readLoop: receive quota *)
       if v5 && (0 <? qos) && (k_quota k =? 0) then HErrRead s (Some 147)
       else
         let k := if v5 && (0 <? qos) then set_quota (k_quota k - 1) k else k in
         handle_publish c k dup qos retain topic payload pid props (upd_conn c k s)
-  | KSubscribe pid props topics => handle_subscribe c k pid props topics s
+  | KSubscribe pid props topics =>
+      if forallb (fun t => let '(g, f) := split_topic (tq_name t) in valid_filter_spec f) topics
+      then handle_subscribe c k pid props topics s else HErrRead s (Some 129)
   | KUnsubscribe pid _ topics => handle_unsubscribe c k pid topics s
   | KPuback pid _ _ =>
       HOk (release_id c pid (queue_op (k_cid k) (fun q => fst (q_remove pid q)) s)) []
@@ -989,7 +1010,8 @@ Definition handle_packet (c : N) (k : conn) (p : pkt) (s : st) : hres :=
               let s := match sei with
                        | Some x => if x =? 0 then s else
                                      set_tables (aset (k_cid k) {| se_will := se_will se; se_will_delay := se_will_delay se;
-                                                                   se_connected_at := se_connected_at se; se_expiry := x |} (b_sessions s))
+                                                                   se_connected_at := se_connected_at se;
+                                                                   se_expiry := N.min x (c_session_expiry (b_cfg s)) |} (b_sessions s))
                                                 (b_online s) (b_offline s) (b_wills s) (b_queues s) (b_unacks s) s
                        | None => s
                        end in
@@ -1073,12 +1095,29 @@ Definition step_event (s : st) (e : event) : st * list out :=
           | Some k => conn_gone c (upd_conn c (set_force k) s)
           | None => (s, [])
           end
-      | None => if ahas cid (b_offline s) then (remove_session cid s, []) else (s, [])
+      | None => if ahas cid (b_offline s) then release_will cid (remove_session cid s) else (s, [])
       end
   | EAdvance ms => (set_time (b_now s + ms) (b_rt s) s, [])
   | EExpireCheck =>
-      (fold_left (fun s0 cd => if snd cd <? b_now s0 then remove_session (fst cd) s0 else s0) (b_offline s) s, [])
-  | ESleep ms => fire_wills (set_time (b_now s + ms) (b_rt s + ms) s)
+      let expired := filter (fun cd => snd cd <? b_now s) (b_offline s) in
+      let s1 := fold_left (fun s0 cd => remove_session (fst cd) s0) expired s in
+      fold_left (fun acc cd => let '(s0, o0) := acc in
+                               let '(s', o') := release_will (fst cd) s0 in (s', o0 ++ o'))
+                expired (s1, [])
+  | ESleep ms =>
+      (* readLoop's deadline is keepAlive/2 + keepAlive seconds after the last packet; the harness pings every
+         attached socket at the end of every step, so only the sleep itself can exceed it *)
+      let s0 := set_time (b_now s + ms) (b_rt s + ms) s in
+      let '(s1, o1) :=
+        fold_left (fun acc ck => let '(sa, oa) := acc in
+                                 let k := snd ck in
+                                 match k_phase k with
+                                 | PhConnected | PhZombie =>
+                                     if (0 <? k_keepalive k) && ((k_keepalive k / 2 + k_keepalive k) * 1000 <? ms)
+                                     then let '(sb, ob) := conn_gone (fst ck) sa in (sb, oa ++ ob) else (sa, oa)
+                                 | _ => (sa, oa)
+                                 end) (b_conns s0) (s0, []) in
+      let '(s2, o2) := fire_wills s1 in (s2, o1 ++ o2)
   | EInspect => (s, [])
   end.
 
